@@ -220,6 +220,31 @@ def opSurgery (j : Json) : Except String Json := do
     pure (Json.mkObj (jlat (Surgery.reorder L o)))
   | _ => throw "bad-kind"
 
+
+/-! ### C09: pickling and equality -/
+
+def opPickle (j : Json) : Except String Json := do
+  let L ← parseLat j
+  let ladder ← nats (← field j "ladder")
+  let cw ← nat (← field j "crossing_width")
+  match Pickle.getstate ladder cw L with
+  | .error .tooManyVertices => throw "too-many-vertices"
+  | .error .crossingDoesNotFit => throw "crossing-does-not-fit"
+  | .ok s =>
+    let r := Pickle.setstate L.scale s
+    pure (Json.mkObj [("width", jnat s.width), ("pos", jlist jpairI s.pos), ("edges", jlist jpairN s.edges),
+                      ("cross", jlist jpairI s.cross), ("eq", Json.bool (Pickle.latEq L r)),
+                      ("restored_edges_equal", Json.bool (r.edges == L.edges && r.cross == L.cross && r.nV == L.nV))])
+
+def opLatEq (j : Json) : Except String Json := do
+  let A ← parseLat (← field j "a")
+  let B ← parseLat (← field j "b")
+  if A.scale != B.scale then throw "scale-mismatch"
+  let ms := Pickle.eqMargins A B
+  -- margin relative to the tolerance: |(100Δ)²·n − S²| / S²  ≥ 1e-6 ?  reported as a boolean to keep numbers small
+  let tight := ms.any fun m => decide (m.natAbs * 1000000 < (A.scale ^ 2).natAbs)
+  pure (Json.mkObj [("eq", Json.bool (Pickle.latEq A B)), ("eq_rev", Json.bool (Pickle.latEq B A)), ("tight", Json.bool tight)])
+
 def dispatch (op : String) (j : Json) : Except String Json :=
   match op with
   | "plaquettes" => opPlaquettes j
@@ -229,6 +254,8 @@ def dispatch (op : String) (j : Json) : Except String Json :=
   | "tree" => opTree j
   | "solve" => opSolve j
   | "surgery" => opSurgery j
+  | "pickle" => opPickle j
+  | "lateq" => opLatEq j
   | _ => throw "bad-op"
 
 def handle (line : String) : String :=
